@@ -399,10 +399,13 @@ class Spectrum:
             An array of sampled values.
 
         """
+        # sample a converted copy: sampling must not change this object's units
+        spectrum = self
         if waveunit != self.waveunit:
-            self.to(waveunit)
+            spectrum = self.copy()
+            spectrum.to(waveunit)
 
-        interp = scipy.interpolate.interp1d(self.wave, self.value, kind=method,
+        interp = scipy.interpolate.interp1d(spectrum.wave, spectrum.value, kind=method,
                                             copy=False, bounds_error=False,
                                             fill_value=fill_value)
 
@@ -510,8 +513,11 @@ class Spectrum:
                              'If this Spectrum must be represented by a single '
                              'wavelength, consider using Spectrum.integrate() instead.')
 
+        # bin a converted copy: binning must not change this object's units
+        spectrum = self
         if waveunit != self.waveunit:
-            self.to(waveunit)
+            spectrum = self.copy()
+            spectrum.to(waveunit)
 
         if interp_method == 'trapz':
             dx = np.diff(wave)/2
@@ -525,7 +531,8 @@ class Spectrum:
                 raise ValueError('Unknown ends ', ends)
 
             # sample
-            f = self.sample(x, method=sample_method, fill_value=fill_value)
+            f = spectrum.sample(x, method=sample_method, fill_value=fill_value,
+                                waveunit=waveunit)
 
             # apply the chained trapezoidal rule
             bins = np.array([])
@@ -550,7 +557,8 @@ class Spectrum:
                 raise ValueError('Unknown ends ', ends)
 
             # sample
-            f = self.sample(x, method=sample_method, fill_value=fill_value)
+            f = spectrum.sample(x, method=sample_method, fill_value=fill_value,
+                                waveunit=waveunit)
 
             # apply the chained simpson's rule
             bins = np.array([])
@@ -561,7 +569,7 @@ class Spectrum:
             raise ValueError('Unknown method ', interp_method)
 
         if preserve_power:
-            norm_factor = self.integrate(np.min(wave), np.max(wave), method=interp_method)/np.sum(bins)
+            norm_factor = spectrum.integrate(np.min(wave), np.max(wave), method=interp_method)/np.sum(bins)
             bins *= norm_factor
 
         return bins
@@ -897,6 +905,13 @@ def _interp_common(s1, s2, sampling, method, fill_value):
     s2_value : ndarray
 
     """
+    # express both spectra in the left operand's wavelength unit (working on a
+    # copy so the right operand is left untouched)
+    waveunit = s1.waveunit
+    if s2.waveunit != waveunit:
+        s2 = s2.copy()
+        s2.to(waveunit)
+
     # compute a common wavelength array that spans both spectrum and has the
     # desired sampling
     minwave = min(s1.wave.min(), s2.wave.min())
@@ -915,8 +930,10 @@ def _interp_common(s1, s2, sampling, method, fill_value):
     s2_wave = commonwave[s2_index]
 
     # sample each Spectrum at the requested sampling
-    s1_samplevalue = s1.sample(s1_wave, method=method, fill_value=fill_value)
-    s2_samplevalue = s2.sample(s2_wave, method=method, fill_value=fill_value)
+    s1_samplevalue = s1.sample(s1_wave, method=method, fill_value=fill_value,
+                               waveunit=waveunit)
+    s2_samplevalue = s2.sample(s2_wave, method=method, fill_value=fill_value,
+                               waveunit=waveunit)
 
     # create nominal value arrays
     s1_value = fill_value * np.ones(commonwave.shape)
